@@ -90,6 +90,22 @@ pub fn gen_c06(tier: &str, seed: u64, out: &mut dyn FnMut(Value)) {
     for depth in [8usize, 31, 32, 33, 34, 40, 63, 64, 65, 66, 100, 127, 128, 129, 255, 256, 257] {
         out(scenario_json(&deep_chain(depth), &events_m, &mut rng, "dependency chain"));
     }
+    // layered dependencies: every rule of a layer uses every rule of the layer below (shared dependencies at every level)
+    for (layers, width) in [(6usize, 2usize), (20, 2), (40, 2), (12, 3)] {
+        let mut rules = vec![];
+        for l in 0..layers {
+            for k in 0..width {
+                let ops: Vec<(String, Operand)> = if l == 0 {
+                    vec![("$f".into(), Operand::Test { segs: fpath(k), op: 0, lit: Lit::sq("1") })]
+                } else {
+                    (0..width).map(|j| (format!("$d{j}"), Operand::Rule(format!("l{}k{j}", l - 1)))).collect()
+                };
+                let cond = if l == 0 { Form::V("$f".into()) } else if (l + k) % 2 == 0 { Form::Any(None) } else { Form::All(None) };
+                rules.push(SRule { name: format!("l{l}k{k}"), ty: Some(if l + 1 == layers { "detection" } else { "dependency" }.into()), ops, cond: Some(cond), severity: Some(1), ..Default::default() });
+            }
+        }
+        out(scenario_json(&rules, &events_m, &mut rng, "layered dependencies"));
+    }
     // forward, self, unknown and disabled references: the compiler must reject them
     let cfg = Cfg { bad_ref_prob: (1, 4), disabled_prob: (1, 5), max_rules: 5, n_events: 3, ..Cfg::default() };
     gen_random(&mut rng, &cfg, if thorough { 100000 } else { 6000 }, "bad / disabled references", (1, 8), out);
